@@ -218,6 +218,7 @@ def check(repo: Repo, rep: Report) -> None:
     rep.rule("L4-handoff", "ownership hand-off on every path of every mutator", floor=12)
     rep.rule("L4-snapshot", "CompositeDisposable.dispose/clear dispose a snapshot swapped out under the lock", floor=3)
     rep.rule("L5-single-assignment", "SingleAssignmentDisposable rejects a second assignment, deciding under the lock", floor=2)
+    rep.rule("L7-no-callout-under-plain-lock", "items are disposed outside the container's lock unless that lock is re-entrant", floor=4)
     rep.rule("L6-item-identity", "held items are tested with `is (not) None`, never by truthiness (a disposable may be falsy: "
                                  "an empty CompositeDisposable has __len__ == 0)", floor=3)
     cls = {}
@@ -227,6 +228,14 @@ def check(repo: Repo, rep: Report) -> None:
         cl = ClassLocks(repo, c, ["self.lock"], fields)
         discipline(rep, cl)
         item_identity(rep, c, "disposable" if name == "CompositeDisposable" else "current")
+        # L7: items are disposed outside the lock, or the lock is re-entrant: an item's dispose() may come back to this container
+        from ..engines.locks import lock_kind
+        kind = lock_kind(repo, c, "lock")
+        under = [(m_, s_) for m_ in cl.methods for s_ in sites(m_) if isinstance(s_.node, ast.Call) and isinstance(s_.node.func, ast.Attribute)
+                 and s_.node.func.attr == "dispose" and (dotted(s_.node.func.value) or "").split(".")[0] != "self" and cl.held(s_)]
+        rep.ob("L7-no-callout-under-plain-lock", c, f"{name}: lock kind {kind}; {len(under)} item.dispose() calls while holding it", kind == "RLock" or not under,
+               f"{name} disposes an item while holding its non-reentrant lock ({[short(s_.node) for _, s_ in under]}): an item whose dispose() "
+               f"reaches back into this container (a handle that is its own cancel token, a disposable that removes itself) deadlocks the thread")
     for name in ("SerialDisposable", "SingleAssignmentDisposable", "MultipleAssignmentDisposable"):
         c = cls[name]
         setter = c.child("set_disposable")
